@@ -574,6 +574,9 @@ pub fn eval(ctx: &Ctx, case: &Case) {
 }
 
 pub fn replay(ctx: &Arc<Ctx>, v: &Value) {
+    if crate::cold::replay(ctx, v) {
+        return;
+    }
     let c: Case = serde_json::from_value(v.clone()).expect("C13 case");
     eval(ctx, &c);
 }
@@ -905,4 +908,5 @@ pub fn run(ctx: &Arc<Ctx>) {
     ctx.sample(serde_json::to_value(cases.iter().find(|c| matches!(c, Case::Booth { .. })).unwrap()).unwrap());
     run_cases(ctx, &cases, 128, eval);
     ctx.assume("gm-sm9 fn_random_u256 / fp_random_u256 are unreachable dead code and not judged");
+    crate::cold::check(ctx, "C13");
 }
